@@ -20,6 +20,7 @@
 import CijProofs.Lemmas.NonShearCalculus
 import CijProofs.Lemmas.NonShearSource
 import CijProofs.Lemmas.ModeGammaSource
+import CijProofs.Lemmas.NonShearGlueSource
 
 namespace Cij.C01
 
@@ -256,6 +257,170 @@ theorem c01_q_is_source (x : ℝ) :
   constructor
   · simp [q1, Generated.q1Expr, QExpr.eval]
   · simp [q2, Generated.q2Expr, QExpr.eval, List.replicate]
+
+/-! #### the glue IS the source: averaging, weights, prefactors, Q, masks, class table — re-extracted from nonshear.py on this run
+
+`tools/gens/nonshear_src.py` translates what the generators above leave out (`Generated/NonShearGlue.lean`): the module function
+`average_over_modes` as a reduction tree (copy → `clear_gamma_point` → `numpy.average` over the mode axis → `numpy.average` with
+`weights=q_weights` over the q axis), `clear_gamma_point` as index data, the method `average_over_modes(self, amount)`, `q_weights`,
+the accessors, `__init__`, `prefactors` of both classes as whole expression trees, the broadcasting subscripts, `Q`, the
+`ret[numpy.where(self.t_array == 0), :] = 0` statements, the unit conversions, the class table.  `CijModel/NSGlue.lean` gives these
+data their meaning; the theorems below say that the model functions about which everything above is proved ARE that meaning, for
+all inputs.  The `…_source` theorems at the end restate the headline identities for `Source.valueIsothermalAt`, a
+`value_isothermal` assembled from translated pieces only. -/
+
+section GlueSource
+open Cij.NSGlue Cij.NSExpr Generated.NonShearGlue
+
+/-- `NonShear.averageOverModes` is the meaning of the translated method → module function → reduction tree, for ALL arrays and
+weights; the tree clears a COPY (the caller's array is untouched), `clear_gamma_point` works in place on what it is given -/
+theorem c01_glue_is_source_average (x : List (List ℝ)) (w : List ℝ) :
+    methodAvg avgMethod avgTree clearSpec x w = .a0 (averageOverModes x w) ∧
+    avgTree.mutatesInput = false ∧ clearSpec.inPlaceOnly = true :=
+  ⟨methodAvg_gen x w, by decide, by decide⟩
+
+/-- the translated `clear_gamma_point` on any `[q][m]` array, any number of q-points: the first three entries of the FIRST row
+become 0, every other entry of every row is kept -/
+theorem c01_glue_is_source_clear (r : List ℝ) (X : List (List ℝ)) :
+    clearAt clearSpec (r :: X) = (List.replicate (min 3 r.length) 0 ++ r.drop 3) :: X := by
+  rw [clearAt_gen]
+  show zeroFirst 3 r :: X = _
+  congr 1
+  match r with
+  | [] => rfl
+  | [a] => simp [zeroFirst]
+  | [a, b] => simp [zeroFirst, List.replicate]
+  | a :: b :: c :: rest => simp [zeroFirst, List.replicate]
+
+/-- **the translated averaging is the weighted mode sum**: for every spectrum shape (ANY number of q-points, rows of 3·na entries),
+any weights with Σw ≠ 0 and any per-mode quantity φ, `self.average_over_modes([φ])` as translated, times 3·na, is
+Σ_q (w_q / Σw) Σ_{m ∉ Γ-acoustic} φ_qm: only the three acoustic modes of the first q-point are left out, whatever nq, and the
+weights are divided by their exact sum -/
+theorem c01_glue_is_source_average_sum {μ : Type} (S : List (List μ)) (w : List ℝ) (φ : μ → ℝ) (na : ℕ) (hna : na ≠ 0)
+    (hlen : ∀ row ∈ S, row.length = 3 * na) (hw : sumL w ≠ 0) :
+    ∃ a, srcLong.avg (S.map (List.map φ)) w = some a ∧ srcOff.avg (S.map (List.map φ)) w = some a ∧
+      a * 3 * na = wsum w (dropΓ S) φ :=
+  ⟨_, srcLong_avg _ w, srcOff_avg _ w, average_eq_wsum S w φ na hna hlen hw⟩
+
+/-- `q_weights` as translated: the second components of `calculator.qha_input.weights`, in file order, nothing scaled, rounded,
+normalised or dropped -/
+theorem c01_glue_is_source_weights {β : Type} (pairs : List (β × ℝ)) :
+    evalQWeights qWeights pairs = some (pairs.map (·.2)) ∧ qWeights.path = ["calculator", "qha_input", "weights"] :=
+  ⟨rfl, rfl⟩
+
+/-- the model's prefactors are the translated `prefactors` expressions for all strain fractions; in closed form
+(1/(5e²), 1/(3e)) and (1/(15e_ie_j), 1/(3e_i), 1/(3e_j)) -/
+theorem c01_glue_is_source_prefactors (e0 e1 : ℝ) :
+    prefactorsLong e0 e1 = evalPref prefExprsLong e0 e1 ∧ prefactorsOff e0 e1 = evalPref prefExprsOff e0 e1 ∧
+    (e0 ≠ 0 → (evalPref prefExprsLong e0 e0).p0 = 1 / (5 * e0 ^ 2) ∧ (evalPref prefExprsLong e0 e0).p2 = 1 / (5 * e0 ^ 2) ∧
+      (evalPref prefExprsLong e0 e0).p10 = 1 / (3 * e0)) ∧
+    (e0 ≠ 0 → e1 ≠ 0 → (evalPref prefExprsOff e0 e1).p0 = 1 / (15 * (e0 * e1)) ∧
+      (evalPref prefExprsOff e0 e1).p2 = 1 / (15 * (e0 * e1))) := by
+  refine ⟨rfl, rfl, fun h => ?_, fun h0 h1 => ?_⟩
+  · exact ⟨(prefLong_closed e0 h).1, (prefLong_closed e0 h).2.1, (prefLong_closed e0 h).2.2.1⟩
+  · exact ⟨(prefOff_closed e0 e1 h0 h1).1, (prefOff_closed e0 e1 h0 h1).2.1⟩
+
+/-- `mode_gamma` as translated (wiring + the broadcasting subscript of each prefactor: one prefactor per VOLUME) is the model's
+`modeGamma`, in both classes; and every broadcasting subscript of every method has the pattern the per-(T, V) model assumes -/
+theorem c01_glue_is_source_mode_gamma (p : Pref ℝ) (mg0 mg1 mg2 : List (List ℝ)) :
+    wiringGamma Generated.mgWiringLong mgBroadcastLong p mg0 mg1 mg2 = some (modeGamma p mg0 mg1 mg2) ∧
+    wiringGamma Generated.mgWiringOff mgBroadcastOff p mg0 mg1 mg2 = some (modeGamma p mg0 mg1 mg2) ∧
+    bcastTable.all bcastOk = true :=
+  ⟨wiringGammaLong_gen p mg0 mg1 mg2, wiringGammaOff_gen p mg0 mg1 mg2, by decide⟩
+
+/-- `Q` as translated is `h_div_k · (ω / T)`, elementwise, with no special case (T = 0 and ω ≤ 0 are not treated here: the
+T = 0 rows are overwritten afterwards, the Γ-acoustic entries by `clear_gamma_point`) -/
+theorem c01_glue_is_source_Q (hdk T : ℝ) (freq : List (List ℝ)) :
+    Qarr hdk T freq = map2 (fun f => evalQDef hdk T f qDef) freq ∧ ∀ f, evalQDef hdk T f qDef = hdk * (f / T) :=
+  ⟨rfl, fun _ => rfl⟩
+
+/-- the translated `ret[numpy.where(self.t_array == 0), :] = 0` on ANY temperature grid and any `[t][v]` array: exactly the rows
+whose temperature IS 0 become 0 — wherever they stand, none, one or several; and the model's `thermal_contribution` grids are
+the translated masks applied to the translated unmasked bodies -/
+theorem c01_glue_is_source_T0_rows (c : Consts ℝ) (w : List ℝ) (ts : List (TempRow ℝ)) (vs : List (VolSlice ℝ))
+    (temps : List ℝ) (grid : List (List ℝ)) :
+    applyMasks masksThLong temps grid
+      = some (List.zipWith (fun T row => if T = 0 then row.map (fun _ => (0 : ℝ)) else row) temps grid) ∧
+    applyMasks masksThOff temps grid
+      = some (List.zipWith (fun T row => if T = 0 then row.map (fun _ => (0 : ℝ)) else row) temps grid) ∧
+    applyMasks masksThLong (ts.map (·.T)) (rawGrid Generated.nsThLong mgLong c w ts vs) = some (thermalLong c w ts vs) ∧
+    applyMasks masksThOff (ts.map (·.T)) (rawGrid Generated.nsThOff mgOff c w ts vs) = some (thermalOff c w ts vs) ∧
+    masksZpLong = [] ∧ masksZpOff = [] ∧ masksIsoLong = [] ∧ masksIsoOff = [] := by
+  refine ⟨?_, ?_, thermalLong_mask_gen c w ts vs, thermalOff_mask_gen c w ts vs, masks_gen.2.2.2.2.1,
+    masks_gen.2.2.2.2.2.1, masks_gen.2.2.2.2.2.2.1, masks_gen.2.2.2.2.2.2.2.1⟩
+  · rw [masks_gen.1, applyMasks_t0]; simp
+  · rw [masks_gen.2.1, applyMasks_t0]; simp
+
+/-- accessors hand over the calculator's arrays of the same name; `__init__` stores `e` and the calculator untouched and reads
+`na` off the calculator -/
+theorem c01_glue_is_source_accessors : AccessorsKnown := by decide
+
+/-- every `units.Quantity(…).to(…).magnitude` is dimensionally consistent; h: `_h` J·m → Ry·cm, k: `_k` eV/K → Ry/K,
+`h_div_k`: `_h/_k` with units(h)/units(k) on both sides (the hypothesis h_div_k = h/k of the theorems above) -/
+theorem c01_glue_is_source_units : UnitsKnown := by decide
+
+/-- the off-diagonal class overrides exactly prefactors, mode_gamma, zero_point_contribution, thermal_contribution,
+value_isothermal and inherits the rest (averaging, weights, Q, Q1, Q2 included) -/
+theorem c01_glue_is_source_hierarchy : HierarchyKnown := by decide
+
+/-- every function of the module and every method of its three classes is translated (tree / data) — the list is complete -/
+theorem c01_glue_coverage_complete : CoverageComplete := by decide
+
+/-- no module-level container (nothing a result could be cached in between calculators) -/
+theorem c01_glue_no_module_state : NoModuleState := by decide
+
+variable (h k hdk : ℝ) (na : ℕ) (S : List (List Mode)) (w : List ℝ)
+variable (hh : 0 < h) (hk : 0 < k) (hhdk : hdk = h / k)
+variable (hna : na ≠ 0) (hlen : ∀ row ∈ S, row.length = 3 * na) (hw : sumL w ≠ 0) (hS : GoodS S)
+
+include hh hk hhdk hna hlen hw hS in
+/-- **C01, longitudinal, on the source.**  `value_isothermal` ASSEMBLED FROM THE TRANSLATED PIECES (translated averaging tree and
+method, translated prefactor expressions, wiring and broadcasting, translated `Q`, `Q1`, `Q2`, translated bodies, translated
+T = 0 statement) at any grid point T ≥ 0, V > 0 equals A/(5e²) + P_ph/(3e) -/
+theorem c01_longitudinal_source (T V e pst P cv : ℝ) (hT : 0 ≤ T) (hV : 0 < V) (he : e ≠ 0) :
+    srcLong.valueIsothermalAt q1Src q2Src { h := h, k := k, hdk := hdk, na := na } w T P cv (sliceOf S V e e pst)
+      = some (Aof (Fph h k T w S) V / (5 * e ^ 2) + Pof (Fph h k T w S) V / (3 * e)) := by
+  rw [q1Src_eq, q2Src_eq, srcLong_valueIsothermal,
+    c01_longitudinal h k hdk na S w hh hk hhdk hna hlen hw hS T V e pst hT hV he]
+
+include hh hk hhdk hna hlen hw hS in
+/-- **C01, off-diagonal, on the source.**  A/(15e_ie_j) + (P − P_static) -/
+theorem c01_offdiagonal_source (T V ei ej P pst cv : ℝ) (hT : 0 ≤ T) (hV : 0 < V) (hei : ei ≠ 0) (hej : ej ≠ 0) :
+    srcOff.valueIsothermalAt q1Src q2Src { h := h, k := k, hdk := hdk, na := na } w T P cv (sliceOf S V ei ej pst)
+      = some (Aof (Fph h k T w S) V / (15 * (ei * ej)) + (P - pst)) := by
+  rw [q1Src_eq, q2Src_eq, srcOff_valueIsothermal,
+    c01_offdiagonal h k hdk na S w hh hk hhdk hna hlen hw hS T V ei ej P pst hT hV hei hej]
+
+include hh hk hhdk hna hlen hw hS in
+/-- zero-point and thermal part separately, on the source, both classes -/
+theorem c01_parts_source (T V e0 e1 pst P cv : ℝ) (hT : 0 ≤ T) (hV : 0 < V) (he0 : e0 ≠ 0) (he1 : e1 ≠ 0) :
+    srcLong.zeroPointAt q1Src q2Src { h := h, k := k, hdk := hdk, na := na } w T P cv (sliceOf S V e0 e1 pst)
+      = some (Aof (Fzp h w S) V / (5 * (e0 * e1)) + Pof (Fzp h w S) V / (3 * e0)) ∧
+    srcLong.thermalAt q1Src q2Src { h := h, k := k, hdk := hdk, na := na } w T P cv (sliceOf S V e0 e1 pst)
+      = some (Aof (Fth h k T w S) V / (5 * (e0 * e1)) + Pof (Fth h k T w S) V / (3 * e0)) ∧
+    srcOff.zeroPointAt q1Src q2Src { h := h, k := k, hdk := hdk, na := na } w T P cv (sliceOf S V e0 e1 pst)
+      = some (Aof (Fzp h w S) V / (15 * (e0 * e1))) ∧
+    srcOff.thermalAt q1Src q2Src { h := h, k := k, hdk := hdk, na := na } w T P cv (sliceOf S V e0 e1 pst)
+      = some (Aof (Fth h k T w S) V / (15 * (e0 * e1))) := by
+  rw [q1Src_eq, q2Src_eq, srcLong_zeroPoint, srcLong_thermal, srcOff_zeroPoint, srcOff_thermal]
+  exact ⟨congrArg some (c01_longitudinal_zero_point h na S w hna hlen hw hS V e0 e1 pst hV he0 he1),
+    congrArg some (c01_longitudinal_thermal h k hdk na S w hh hk hhdk hna hlen hw hS T V e0 e1 pst hT hV he0 he1),
+    congrArg some (c01_offdiagonal_zero_point h na S w hna hlen hw hS V e0 e1 pst hV he0 he1),
+    congrArg some (c01_offdiagonal_thermal h k hdk na S w hh hk hhdk hna hlen hw hS T V e0 e1 pst hT hV he0 he1)⟩
+
+end GlueSource
+
+/-- non-vacuity of the source evaluators: the translated averaging on a concrete 2-q-point array with weights (1, 3):
+the three Γ-acoustic entries of the first q-point are ignored, the second q-point counts in full -/
+example : Cij.NSGlue.srcLong.avg [[7, 7, 7, 3], [1, 1, 1, 1]] ([1, 3] : List ℝ) = some (15 / 16) := by
+  rw [Cij.NSGlue.srcLong_avg]
+  norm_num [averageOverModes, clearGamma, zeroFirst, mean, sumL]
+
+/-- … and a temperature grid where T = 0 is the SECOND row and occurs twice -/
+example : Cij.NSGlue.applyMasks Generated.NonShearGlue.masksThLong ([300, 0, 0] : List ℝ) [[1, 2], [3, 4], [5, 6]]
+    = some [[1, 2], [0, 0], [0, 0]] := by
+  rw [Cij.NSGlue.masks_gen.1, Cij.NSGlue.applyMasks_t0]
+  simp
 
 /-! #### ties shared with other properties
 
